@@ -214,4 +214,9 @@ def c10_import_faults(r, seed, tier, model_ok):
                 if got != want: bad.append(dict(program=t + "   (cwd holds: empty, two, ㅁ, ㅁㅏ, latin)", impl=got, model=f"{want}  (the handler receives exactly what the failure raises uncaught: {base}; {what} under {wn})", which=["import-failure-contents"]))
     finally:
         os.chdir(cwd); shutil.rmtree(SCR, ignore_errors=True); MOD._MODULE_REGISTRY.clear()
+    if model_ok:          # the same programs through the main model (module files on the model's disk): result, error location, complete event trace
+        FILES = {"empty": b"", "two": "ㄱ ㄴ".encode(), "ㅁ": "ㄱ".encode(), "ㅁㅏ": "ㄴ".encode(), "latin": b"\xff\xfe\xb0"}
+        mc = [dict(text=w.replace("{p}", p), files=FILES) for _, p, _ in progs for _, w, _ in wraps]
+        ma = vlib.impl_run(mc); mb = vlib.model_run(mc, tlimit=10); mdist, mbad = vlib.compare(mc, ma, mb)
+        r.slice("import_failures_vs_model", len(mc), len({c["text"] for c in mc}), [mc[0]["text"]], dict(outcomes=dict(mdist)), "the same import failures under the same handlers: interpreter in a directory holding the files vs run_main_fs on a disk holding them", mbad)
     r.slice("import_failures_under_handlers", n, n, ["(ㅁ ㅂㅎㄴ) ((ㄴ ㄱㅇㄱ ㅎㄴ) ㅎ) ㅅㄷㅎㄷ"], dict(cnt), "7 kinds of import failure x 9 handler contexts: contents must be exactly [5, class code] - [5, 5] for import failures proper, [5, -60] for a name that resolves to nothing", bad[:40])
